@@ -123,7 +123,15 @@ def run(case, ctx):
     pre = [obs(s) for s in seqs]
     path = os.path.join(ctx.scratch, f"c12_{os.getpid()}.mid")
     try:
-        Sequence.sequences_save(seqs, path)
+        # entry points: the static function, the single-sequence method (which delegates to it) and a pathlib path
+        if len(seqs) == 1 and case["seqs"][0].get("start") != "both":
+            LOG.n("c12.saved_through_sequence_method")
+            seqs[0].save(path)
+        elif len(seqs) % 2 == 0:
+            import pathlib
+            Sequence.sequences_save(seqs, pathlib.Path(path))
+        else:
+            Sequence.sequences_save(seqs, path)
         out = Sequence.sequences_load(path)
         raw = mido.MidiFile(path)
     finally:
